@@ -1,0 +1,51 @@
+//go:build verif
+
+package dbft
+
+import "time"
+
+// VerifState is a read-only copy of the unexported consensus state.
+type VerifState[H Hash] struct {
+	BlockProcessed, PreBlockProcessed, TxSubscriptionOn, Recovering bool
+	LastBlockTimestamp                                               uint64
+	LastBlockTime, PrepareSentTime                                   time.Time
+	LastBlockIndex                                                   uint32
+	LastBlockView                                                    byte
+	TimePerBlock, MaxTimePerBlock                                    time.Duration
+	RttIdx                                                           int
+	RttAvg                                                           time.Duration
+	RttTimes                                                         []time.Duration
+	HasHeader, HasBlock, HasPreHeader, HasPreBlock                   bool
+	Cache                                                            map[uint32]map[string]map[uint16]ConsensusPayload[H]
+}
+
+// VerifSnapshot returns a copy of the unexported state.
+func (d *DBFT[H]) VerifSnapshot() VerifState[H] {
+	s := VerifState[H]{
+		BlockProcessed: d.blockProcessed, PreBlockProcessed: d.preBlockProcessed,
+		TxSubscriptionOn: d.txSubscriptionOn, Recovering: d.recovering,
+		LastBlockTimestamp: d.lastBlockTimestamp, LastBlockTime: d.lastBlockTime, PrepareSentTime: d.prepareSentTime,
+		LastBlockIndex: d.lastBlockIndex, LastBlockView: d.lastBlockView,
+		TimePerBlock: d.timePerBlock, MaxTimePerBlock: d.maxTimePerBlock,
+		RttIdx: d.rttEstimates.idx, RttAvg: d.rttEstimates.avg, RttTimes: append([]time.Duration(nil), d.rttEstimates.times[:]...),
+		HasHeader: d.header != nil, HasBlock: d.block != nil, HasPreHeader: d.preHeader != nil, HasPreBlock: d.preBlock != nil,
+		Cache: map[uint32]map[string]map[uint16]ConsensusPayload[H]{},
+	}
+	for h, in := range d.cache.mail {
+		m := map[string]map[uint16]ConsensusPayload[H]{"prepare": {}, "chViews": {}, "preCommit": {}, "commit": {}}
+		for k, v := range in.prepare {
+			m["prepare"][k] = v
+		}
+		for k, v := range in.chViews {
+			m["chViews"][k] = v
+		}
+		for k, v := range in.preCommit {
+			m["preCommit"][k] = v
+		}
+		for k, v := range in.commit {
+			m["commit"][k] = v
+		}
+		s.Cache[h] = m
+	}
+	return s
+}
